@@ -60,5 +60,7 @@ def safe_call(fn, *args, **kwargs):
     """(result, None) or (None, 'ExcType: msg\\ntraceback')"""
     try:
         return fn(*args, **kwargs), None
+    except MemoryError:
+        raise       # per-worker memory limit: the harness reports a cap
     except Exception as e:  # noqa
         return None, f"{type(e).__name__}: {e}\n{traceback.format_exc(limit=6)}"
